@@ -15,12 +15,13 @@ META = {
     "title": "scale statistics from numeric values",
     "bounds": {
         "quick": {"slice": "CAT(2)+subtotal x CAT(3 valued categories, one optionally without value), both orientations",
-                  "strand": "CAT(3)", "numeric values": "symbolic reals (any order, ties, negative)", "counts": "all reals >= 0; integers for the median"},
+                  "strand": "CAT(3)", "numeric values": "symbolic reals (any order, ties, negative)", "counts": "all reals >= 0; integers for the vector medians; integers and truncated reals for the median margins and the strand median"},
         "thorough": {"slice": "CAT(2..3)+subtotal x CAT(3 valued), CAT(2) x CAT(4 valued, no subtotal; the subtotal vector with 4 values is inconclusive in z3 NRA and therefore not claimed)", "strand": "CAT(4)", "numeric values": "symbolic reals", "counts": "as quick"},
     },
     "assumptions": ["weighted counts w >= 0; numeric values arbitrary reals; which categories lack a numeric value is part of the configuration"],
-    "outside": ["_Strand.scale_median and rows/columns_scale_median_margin: np.repeat(values, counts) makes the array length data dependent - no bounded encoding (DESIGN 10)",
-                "sizes beyond the bounds"],
+    "stubs": ["np.repeat(values, symbolic integer counts) -> multiset (values, counts); np.median of it by parity of the total and cumulative counts",
+              "astype(int64) of a non-negative real -> fresh integer unknown k with k <= x < k + 1"],
+    "outside": ["medians of more than 3 value categories in the margins / strand", "sizes beyond the bounds"],
 }
 
 
